@@ -264,8 +264,9 @@ def generate(rng, tier):
         s = placed(rng, {'op': 'local_x'})
         S.append(s)
     for _ in range(rep(30, 300)):
-        o = gen.rand_object(rng, pardim=rng.choice([1, 2]), dim=rng.choice([2, 3]), pmax=3, max_interior=1)
-        S.append(placed(rng, {'op': 'flip', 'obj': o}, allow2d=True))
+        dm = rng.choice([2, 3])
+        o = gen.rand_object(rng, pardim=rng.choice([1, 2]), dim=dm, pmax=3, max_interior=1)
+        S.append(placed(rng, {'op': 'flip', 'obj': o}, allow2d=(dm == 2)))
     # curves
     for _ in range(rep(15, 100)):
         d = rng.choice([2, 3])
@@ -400,9 +401,9 @@ def _call(sp, s):
     if op == 'three':
         return cf.circle_segment_from_three_points(*s['x'])
     if op == 'square':
-        return sf.square(s['size'][0] if s['scalar'] else tuple(s['size']) if len(s['size']) > 1 else s['size'][0], tuple(s['ll']))
+        return sf.square(s['size'][0] if s['scalar'] else tuple(s['size']), tuple(s['ll']))
     if op == 'cube':
-        return vf.cube(s['size'][0] if s['scalar'] else tuple(s['size']) if len(s['size']) > 1 else s['size'][0], tuple(s['ll']))
+        return vf.cube(s['size'][0] if s['scalar'] else tuple(s['size']), tuple(s['ll']))
     if op == 'disc':
         return sf.disc(s['r'], s['center'], s['normal'], s['type'], s['xaxis'])
     if op == 'sphere':
@@ -525,7 +526,7 @@ def model_line(s):
         return line('f_torus', CONSTS, s['r1'], s['r2'], s['center'], s['normal'], s['xaxis'], a, lam)
     if op == 'sphere_vol':
         if s['type'] != 'radial':
-            return line('f_sphere_vol_unmodelled', 0)
+            return line('f_noop', 0)
         return line('f_sphere_vol', CONSTS, s['r'], s['center'])
     if op == 'torus_vol':
         a, lam = placement(s)
@@ -1078,33 +1079,36 @@ def o_revolve(sp, s, q):
     if not (abs(q.start(pd) - lo) <= 1e-12 and abs(q.end(pd) - hi) <= 1e-12):
         return ['revolve: sweep parameter domain [%r,%r], expected [%r,%r]' % (q.start(pd), q.end(pd), lo, hi)]
     ks = np.array(q.knots(pd))
-    exact_v = np.concatenate([ks, (ks[:-1] + ks[1:]) / 2])
-    other_v = np.concatenate([ks[:-1] + (ks[1:] - ks[:-1]) * fr for fr in (0.2, 0.7)])
     axis = np.array(s['axis'], dtype=float)
     ah = axis / np.linalg.norm(axis)
     rad = C - np.outer(C @ ah, ah)
     iref = int(np.argmax(np.linalg.norm(rad, axis=-1)))
-    prev = None
-    for v in np.sort(np.concatenate([exact_v, other_v])):
-        Sv = q(*(gp + [np.array([v])]))
-        Sv = Sv.reshape(-1, 3)
-        if v in exact_v:
-            a = v
-        else:
-            # angle of this section read off one profile point; all other points must agree
+    has_ref = np.linalg.norm(rad[iref]) > 1e-6 * sc
+    lab = '[volume-revolve-negative-theta-reversed] ' if (s['op'] == 'revolve_vol' and th < 0) else ''
+
+    def section(v, a):
+        Sv = q(*(gp + [np.array([v])])).reshape(-1, 3)
+        if a is None:
+            # angle of this section read off one profile point; every other point must agree with it
             rv = Sv[iref] - (Sv[iref] @ ah) * ah
-            a = atan2(np.cross(rad[iref], rv) @ ah, rad[iref] @ rv) if np.linalg.norm(rad[iref]) > 1e-6 * sc else v
-        want = C @ _rodrigues(axis, a).T
-        e = np.max(np.abs(Sv - want))
-        if not e <= 10 * RTOL * sc:
-            lab = '[volume-revolve-negative-theta-reversed] ' if (s['op'] == 'revolve_vol' and th < 0) else ''
-            f.append('%srevolve: section at parameter %.6g is not the profile rotated by %s about the axis (error %.3g)' % (
-                lab, v, 'that angle' if v in exact_v else 'one angle', e))
-            break
-        if prev is not None and np.linalg.norm(rad[iref]) > 1e-6 * sc and v not in exact_v:
-            if not (prev - 1e-9 <= (a - lo) % (2 * pi) + lo <= hi + 1e-9):
-                f.append('revolve: section angle %.6g at parameter %.6g outside the swept range' % (a, v))
-                break
+            a = atan2(np.cross(rad[iref], rv) @ ah, rad[iref] @ rv) if has_ref else v
+        return a, float(np.max(np.abs(Sv - C @ _rodrigues(axis, a).T)))
+
+    for k0, k1 in zip(ks[:-1], ks[1:]):
+        # knots and span mid-points: the section is the profile rotated by the parameter itself
+        for v in (k0, (k0 + k1) / 2, k1):
+            _, e = section(v, v)
+            if not e <= 10 * RTOL * sc:
+                return f + ['%srevolve: section at parameter %.6g is not the profile rotated by that angle about the axis '
+                            '(error %.3g)' % (lab, v, e)]
+        # elsewhere: the profile rotated by one angle, which lies inside the span
+        for fr in (0.2, 0.7):
+            v = k0 + (k1 - k0) * fr
+            a, e = section(v, None)
+            if not e <= 10 * RTOL * sc:
+                return f + ['%srevolve: section at parameter %.6g is not a rotated copy of the profile (error %.3g)' % (lab, v, e)]
+            if has_ref and not (a - k0) % (2 * pi) <= (k1 - k0) + 1e-9:
+                return f + ['%srevolve: section angle %.6g at parameter %.6g is outside its span' % (lab, a, v)]
     return f
 
 
@@ -1218,8 +1222,8 @@ def tags(s, res):
         out.append('center=zero' if not any(c) else 'center=%dD' % len(c))
     if 'obj' in s:
         o = s['obj']
-        out.append('profile:%s%s%dD' % ('rational' if o['rational'] else 'polynomial',
-                                         '-periodic' if any(b['periodic'] >= 0 for b in o['bases']) else '', len(o['cps'][0][0]) - (1 if o['rational'] else 0) if len(o['bases']) == 1 else 0))
+        out.append('profile:%s%s' % ('rational' if o['rational'] else 'polynomial',
+                                     '-periodic' if any(b['periodic'] >= 0 for b in o['bases']) else ''))
     if s.get('raises'):
         out.append('raises')
     return out
